@@ -216,3 +216,21 @@ package p2pke
 //@   ensures inv(s)
 //@   ensures [ready] ret1 == nil ==> sready(old(s.isInit), old(s.hsIndex)) && old(s.nonce) >= 16 && s.nonce == old(s.nonce) + 1
 //@   ensures ret1 != nil ==> ret0 == nil && s.nonce == old(s.nonce)
+//@
+//@ // entry points used by the swarm glue (their bodies are the closures verified above)
+//@ func (*Channel).WaitReady
+//@   assumeframe
+//@   modifies all(c)
+//@   requires c != nil
+//@   ensures true
+//@
+//@ func (*Channel).RemoteKey
+//@   assumeframe
+//@   requires c != nil
+//@   ensures true
+//@
+//@ func (*Channel).Deliver
+//@   assumeframe
+//@   modifies all(c), all(out)
+//@   requires c != nil
+//@   ensures true
